@@ -18,5 +18,8 @@ CONSTANTS
   KEYV <- MCV_KEYV
   NameCaseSigned = TRUE
   CacheRule = "required"
+  CfgMin = 0
+  CfgMax = 99
+  Deviation = "none"
 INVARIANTS NotUnsignedBitsFree
 CHECK_DEADLOCK FALSE
